@@ -107,6 +107,15 @@ func RunTrackers(env *Env, plan *TrackerPlan) {
 	sutHost := env.NewHost("sut", "sut")
 	fs := simfs.New("sut", env.R.Uint64())
 	sut, err := env.StartNode(sutHost, fs, "", plan.K)
+	if err == nil {
+		// oracle parameters from the configuration the SUT really runs with
+		for _, ta := range trackers {
+			ta.mu.Lock()
+			ta.ClientTimeout = sut.Cfg.TrackerHTTPTimeout
+			ta.RespLimit = int64(sut.Cfg.TrackerHTTPMaxResponseSize)
+			ta.mu.Unlock()
+		}
+	}
 	if err != nil {
 		panic("harness: cannot start SUT: " + err.Error())
 	}
@@ -293,7 +302,9 @@ func RunTrackers(env *Env, plan *TrackerPlan) {
 			if a.ReplyOK {
 				st.acceptedOK = true
 			}
-			if a.ReplyOK && !a.Ambiguous {
+			if a.ReplyOK && !a.Ambiguous && a.Event != "stopped" {
+				// ("stopped" is sent by a separate announcer when the torrent stops; a periodic
+				// announce that was due at that moment is spaced from the previous periodic one)
 				st.lastOK = &cp
 				st.lastOKAt = a.At
 			}
@@ -369,6 +380,20 @@ func RunTrackers(env *Env, plan *TrackerPlan) {
 	}
 	sort.Strings(keys)
 	for _, k := range keys {
+		// in the order the announces reached the trackers (they are recorded when the reply is
+		// finished, and a slow reply finishes after a later quick one)
+		{
+			idx := make([]int, len(tierSeq[k]))
+			for i := range idx {
+				idx[i] = i
+			}
+			sort.SliceStable(idx, func(a, b int) bool { return tierAt[k][idx[a]] < tierAt[k][idx[b]] })
+			s2, a2 := make([]string, len(idx)), make([]time.Duration, len(idx))
+			for i, j := range idx {
+				s2[i], a2[i] = tierSeq[k][j], tierAt[k][j]
+			}
+			tierSeq[k], tierAt[k] = s2, a2
+		}
 		seq := tierSeq[k]
 		var tierIdx int
 		fmt.Sscanf(k[strings.Index(k, "/tier")+5:], "%d", &tierIdx)
